@@ -3,7 +3,9 @@ package checks
 import (
 	"fmt"
 	"os"
+	"strings"
 	"testing"
+	"testing/synctest"
 
 	"verif/harness/mon"
 	"verif/harness/wk"
@@ -30,4 +32,22 @@ func TestWorker(t *testing.T) {
 	mon.Quiet()
 	f(c)
 	c.Finish()
+}
+
+// runBubble runs f in a testing/synctest bubble on its own goroutine (a race report or failure inside the bubble makes
+// synctest.Test call FailNow, which must not end the worker). A panic escaping f - in particular the bubble's
+// "deadlock: main bubble goroutine has exited but blocked goroutines remain" - is reported under C09.
+func runBubble(c *wk.Ctx, idx int64, f func()) {
+	done := make(chan any, 1)
+	go func() {
+		defer func() { done <- recover() }()
+		synctest.Test(theT, func(t *testing.T) { f() })
+	}()
+	if rec := <-done; rec != nil {
+		pi := wk.Capture(rec)
+		if strings.Contains(pi.Value, "HARNESS BUG") {
+			panic(rec)
+		}
+		c.ViolP("C09", "bubble:"+strings.SplitN(pi.Value, ":", 2)[0], pi.Value, map[string]any{"index": idx})
+	}
 }
